@@ -8,6 +8,9 @@
 (*   torrent_write.go           handlePieceWriteDone (bit, have, ban)      *)
 (*   torrent_webseed.go         handleWebseedPieceResult                   *)
 (*   torrent_stop.go/start.go   stop / start while a write is in flight    *)
+(*   storage write errors       a write of a hash-OK piece may fail (I/O   *)
+(*                              error): the piece is not counted and the   *)
+(*                              torrent stops with the error; Start again  *)
 (* Blocks carry a class: "G" (equal to ground truth) or "B".  SHA-1 is     *)
 (* collision free by assumption: HashOK(buf) iff every block is "G".       *)
 (* TLC checks the C01 obligations (TransferObs) for every interleaving of  *)
@@ -23,7 +26,8 @@ CONSTANTS NP,        \* pieces
           Sources,   \* web seeds (addresses), subset may lie
           LyingSources,
           EndgameLimit,
-          MaxStops   \* bound on stop/start cycles
+          MaxStops,  \* bound on stop/start cycles
+          MaxFaults  \* bound on storage-write errors (I/O error on a piece whose hash matched)
 
 VARIABLES pd,        \* [Peers -> [piece, got]]  got : [Block -> {"E","G","B"}], piece = -1 if idle
           wsq,       \* web-seed results waiting in the (suspendable) result channel: set of [src, piece, cls]
@@ -31,21 +35,22 @@ VARIABLES pd,        \* [Peers -> [piece, got]]  got : [Block -> {"E","G","B"}],
           disk,      \* [Piece -> {"Nil","Good","Bad"}]
           running,   \* torrent started
           epoch,     \* incremented by every start (identifies the run a write belongs to)
-          stops
+          stops,
+          faults     \* storage-write errors injected so far
 
-ivars == <<pd, wsq, writing, disk, running, epoch, stops>>
+ivars == <<pd, wsq, writing, disk, running, epoch, stops, faults>>
 vars  == <<obsvars, ivars>>
 
 Block == 1 .. NB
 NoDl  == [piece |-> -1, got |-> [b \in Block |-> "E"]]
-Nil   == [piece |-> -1, cls |-> "G", src |-> "none", phase |-> "done", epoch |-> 0, ok |-> FALSE]
+Nil   == [piece |-> -1, cls |-> "G", src |-> "none", phase |-> "done", epoch |-> 0, ok |-> FALSE, failed |-> FALSE]
 
 Init ==
     /\ np = NP /\ good = {} /\ have = {} /\ reported = {} /\ banned = {} /\ conn = {}
     /\ pd = [pe \in Peers |-> NoDl]
     /\ wsq = {} /\ writing = Nil
     /\ disk = [p \in 0 .. (NP - 1) |-> "Nil"]
-    /\ running = TRUE /\ epoch = 1 /\ stops = 0
+    /\ running = TRUE /\ epoch = 1 /\ stops = 0 /\ faults = 0
 
 Suspended == writing # Nil          \* pieceMessagesC / webseedPieceResultC are suspended while a write is in flight
 Downloaders(p) == {pe \in Peers : pd[pe].piece = p}
@@ -60,14 +65,14 @@ Disconnect(pe) ==                                 \* closePeer
     /\ pe \in conn
     /\ conn' = conn \ {pe}
     /\ pd' = [pd EXCEPT ![pe] = NoDl]
-    /\ UNCHANGED <<np, good, have, reported, banned, wsq, writing, disk, running, epoch, stops>>
+    /\ UNCHANGED <<np, good, have, reported, banned, wsq, writing, disk, running, epoch, stops, faults>>
 
 StartDownload(pe, p) ==                           \* picker envelope (Picker.tla obligations)
     /\ running /\ pe \in conn /\ pd[pe].piece = -1
     /\ p \notin have /\ (writing = Nil \/ writing.piece # p)
     /\ Cardinality(Downloaders(p)) < (IF EndgameLimit > 1 THEN EndgameLimit ELSE 1)
     /\ pd' = [pd EXCEPT ![pe] = [piece |-> p, got |-> [b \in Block |-> "E"]]]
-    /\ UNCHANGED <<obsvars, wsq, writing, disk, running, epoch, stops>>
+    /\ UNCHANGED <<obsvars, wsq, writing, disk, running, epoch, stops, faults>>
 
 \* handlePieceMessage for a block of the piece this peer is downloading; duplicates of a received block are dropped
 Deliver(pe, b, cls) ==
@@ -81,8 +86,8 @@ Deliver(pe, b, cls) ==
                /\ UNCHANGED writing
           ELSE /\ pd' = [pd EXCEPT ![pe] = NoDl]                 \* closePieceDownloader
                /\ writing' = [piece |-> p, cls |-> IF \A x \in Block : got2[x] = "G" THEN "G" ELSE "B",
-                              src |-> pe, phase |-> "hash", epoch |-> epoch, ok |-> FALSE]
-    /\ UNCHANGED <<obsvars, wsq, disk, running, epoch, stops>>
+                              src |-> pe, phase |-> "hash", epoch |-> epoch, ok |-> FALSE, failed |-> FALSE]
+    /\ UNCHANGED <<obsvars, wsq, disk, running, epoch, stops, faults>>
 
 DeliverIgnored(pe) ==                             \* duplicate / unrequested piece / other piece / wrong length: dropped or peer closed
     /\ pe \in conn /\ pe \in Liars
@@ -94,27 +99,33 @@ WebseedResult(s, p, cls) ==                       \* urldownloader completes a p
     /\ cls = "B" => s \in LyingSources
     /\ ~\E r \in wsq : r.src = s
     /\ wsq' = wsq \cup {[src |-> s, piece |-> p, cls |-> cls]}
-    /\ UNCHANGED <<obsvars, pd, writing, disk, running, epoch, stops>>
+    /\ UNCHANGED <<obsvars, pd, writing, disk, running, epoch, stops, faults>>
 
 HandleWebseedResult(r) ==                         \* handleWebseedPieceResult: stale results (piece already done) are discarded
     /\ running /\ ~Suspended /\ r \in wsq
     /\ wsq' = wsq \ {r}
     /\ IF r.piece \in have
        THEN UNCHANGED writing
-       ELSE writing' = [piece |-> r.piece, cls |-> r.cls, src |-> r.src, phase |-> "hash", epoch |-> epoch, ok |-> FALSE]
-    /\ UNCHANGED <<obsvars, pd, disk, running, epoch, stops>>
+       ELSE writing' = [piece |-> r.piece, cls |-> r.cls, src |-> r.src, phase |-> "hash", epoch |-> epoch, ok |-> FALSE, failed |-> FALSE]
+    /\ UNCHANGED <<obsvars, pd, disk, running, epoch, stops, faults>>
 
 WriterHash ==                                     \* piecewriter.Run: VerifyHash
     /\ writing # Nil /\ writing.phase = "hash"
     /\ writing' = [writing EXCEPT !.phase = IF writing.cls = "G" THEN "write" ELSE "done", !.ok = (writing.cls = "G")]
-    /\ UNCHANGED <<obsvars, pd, wsq, disk, running, epoch, stops>>
+    /\ UNCHANGED <<obsvars, pd, wsq, disk, running, epoch, stops, faults>>
 
 WriterWrite ==                                    \* Piece.Data.Write: only reached when the hash matched
     /\ writing # Nil /\ writing.phase = "write"
-    /\ writing' = [writing EXCEPT !.phase = "done"]
     /\ \/ /\ disk' = [disk EXCEPT ![writing.piece] = IF writing.cls = "G" THEN "Good" ELSE "Bad"]
           /\ good' = IF writing.cls = "G" THEN good \cup {writing.piece} ELSE good \ {writing.piece}
+          /\ writing' = [writing EXCEPT !.phase = "done"]
+          /\ UNCHANGED faults
        \/ /\ writing.epoch # epoch                                \* files were closed by stop(): the write fails
+          /\ writing' = [writing EXCEPT !.phase = "done", !.failed = TRUE]
+          /\ UNCHANGED <<disk, good, faults>>
+       \/ /\ faults < MaxFaults                                   \* I/O error (disk full, ...): nothing (complete) reaches the file
+          /\ faults' = faults + 1
+          /\ writing' = [writing EXCEPT !.phase = "done", !.failed = TRUE]
           /\ UNCHANGED <<disk, good>>
     /\ UNCHANGED <<np, have, reported, banned, conn, pd, wsq, running, epoch, stops>>
 
@@ -122,31 +133,41 @@ WriterWrite ==                                    \* Piece.Data.Write: only reac
 WriteDone ==
     /\ writing # Nil /\ writing.phase = "done"
     /\ writing' = Nil
-    /\ IF ~writing.ok
+    /\ IF writing.epoch # epoch
+       THEN \* result of a previous run (stop + start while the piece was being written): dropped; a corrupt source is still banned
+            /\ IF ~writing.ok /\ writing.src \in Peers
+               THEN /\ banned' = banned \cup {writing.src} /\ conn' = conn \ {writing.src}
+                    /\ pd' = [pd EXCEPT ![writing.src] = NoDl]
+               ELSE UNCHANGED <<banned, conn, pd>>
+            /\ UNCHANGED <<have, reported, wsq, running>>
+       ELSE IF ~writing.ok
        THEN /\ IF writing.src \in Peers                           \* corrupt piece: close and ban the peer
                THEN /\ banned' = banned \cup {writing.src}
                     /\ conn' = conn \ {writing.src}
                     /\ pd' = [pd EXCEPT ![writing.src] = NoDl]
                ELSE UNCHANGED <<banned, conn, pd>>
-            /\ UNCHANGED <<have, reported>>
-       ELSE IF disk[writing.piece] = "Good"
-            THEN /\ have' = have \cup {writing.piece}
+            /\ UNCHANGED <<have, reported, wsq, running>>
+       ELSE IF writing.failed
+            THEN \* write error on a verified piece: the piece is NOT counted; the torrent stops with the error (stop(pw.Error))
+                 /\ running' = FALSE
+                 /\ conn' = {} /\ pd' = [pe \in Peers |-> NoDl] /\ wsq' = {}
+                 /\ UNCHANGED <<have, reported, banned>>
+            ELSE /\ have' = have \cup {writing.piece}
                  /\ reported' = IF running THEN reported \cup {writing.piece} ELSE reported
                  /\ pd' = [pe \in Peers |-> IF pd[pe].piece = writing.piece THEN NoDl ELSE pd[pe]]
-                 /\ UNCHANGED <<banned, conn>>
-            ELSE UNCHANGED <<have, reported, banned, conn, pd>>  \* write error: the torrent stops with the error
-    /\ UNCHANGED <<np, good, wsq, disk, running, epoch, stops>>
+                 /\ UNCHANGED <<banned, conn, wsq, running>>
+    /\ UNCHANGED <<np, good, disk, epoch, stops, faults>>
 
 Stop ==                                           \* stop(): peers, downloaders, web seeds closed; a write may stay in flight
     /\ running /\ stops < MaxStops
     /\ running' = FALSE /\ stops' = stops + 1
     /\ conn' = {} /\ pd' = [pe \in Peers |-> NoDl] /\ wsq' = {}
-    /\ UNCHANGED <<np, good, have, reported, banned, writing, disk, epoch>>
+    /\ UNCHANGED <<np, good, have, reported, banned, writing, disk, epoch, faults>>
 
 Start ==
     /\ ~running
     /\ running' = TRUE /\ epoch' = epoch + 1
-    /\ UNCHANGED <<obsvars, pd, wsq, writing, disk, stops>>
+    /\ UNCHANGED <<obsvars, pd, wsq, writing, disk, stops, faults>>
 
 Next ==
     \/ \E pe \in Peers : Connect(pe) \/ Disconnect(pe) \/ DeliverIgnored(pe)
